@@ -236,6 +236,7 @@ func runC05HTTP(o *hx.Out, r *hx.Rand, thorough bool) {
 				if ok {
 					ok = within(bound, func() { cs.CloseSend(); recvErr = cs.RecvMsg(&hx.Msg{}) })
 				}
+				runtime.KeepAlive(cs)
 			}
 			cancel()
 			probe("http_early_reply_releases_send", ok, map[string]interface{}{"transport": "httpgrpc", "scenario": "the peer answers (" + how + ") without reading the request while the client is inside SendMsg of a 1 MB message", "send_returned_in_2s": ok, "send_result": fmt.Sprint(sendErr), "receive": fmt.Sprint(recvErr)},
